@@ -91,6 +91,15 @@ func (b *Binder) Rollback(ctx context.Context, pod *v1.Pod, node *v1.Node, bindR
 
 	var rollbackErrs []error
 
+	// The bind call may have been applied although it returned an error (timeout, lost response):
+	// never tear down the GPU groups, config maps and claims of a pod that is in fact bound.
+	current := &v1.Pod{}
+	if err := b.kubeClient.Get(ctx, client.ObjectKeyFromObject(pod), current); err == nil && current.Spec.NodeName != "" {
+		logger.Info("Pod is bound despite the bind error, skipping rollback",
+			"pod", pod.Name, "namespace", pod.Namespace, "node", current.Spec.NodeName)
+		return nil
+	}
+
 	if err := b.plugins.Rollback(ctx, pod, node, bindRequest, nil); err != nil {
 		rollbackErrs = append(rollbackErrs, fmt.Errorf("failed to rollback plugins for pod <%s/%s>: %w", pod.Namespace, pod.Name, err))
 	}
